@@ -233,6 +233,42 @@ class ForkModel:
     def child_closure(self):
         return M.local_closure(self.prog, self.child_roots())
 
+    def child_only_fns(self):
+        """crate functions that run only in the forked child: reachable from the child region and with every
+        call site inside the child region or inside another such function (greatest fixpoint) — so that moving
+        the child's code into a helper keeps it 'child code' for every rule"""
+        if hasattr(self, "_child_only"):
+            return self._child_only
+        S = set(self.child_closure())
+        sites = {}
+        for p, fn in self.prog.fns.items():
+            for bb, t in fn.calls():
+                for nm in M.callee_names(t["f"]):
+                    if nm in S:
+                        sites.setdefault(nm, []).append((p, bb))
+            # closures and fn items mentioned as values count as uses of their defining context
+            for c in M.local_callees(self.prog, fn):
+                if c in S and "{closure" in c:
+                    sites.setdefault(c, []).append((p, None))
+        changed = True
+        while changed:
+            changed = False
+            for f in list(S):
+                for (p, bb) in sites.get(f, []):
+                    inside = (p == self.fn.path and bb is not None and bb in self.child_region and bb not in self.parent_region) or (p in S and p != self.fn.path)
+                    if not inside:
+                        S.discard(f)
+                        changed = True
+                        break
+        self._child_only = S
+        return S
+
+    def in_child(self, fn, bb):
+        """is this program point executed only in the forked child?"""
+        if fn.path == self.fn.path:
+            return bb in self.child_region and bb not in self.parent_region
+        return fn.path in self.child_only_fns()
+
 
 def _may_hold_code(ty):
     return any(m in ty for m in ("Closure(", "{closure", "dyn ", "fn(", "impl ", "Opaque", "FnDef("))
